@@ -367,7 +367,7 @@ type c03Runner struct {
 
 func newC03Runner(c *core.Ctx) *c03Runner {
 	r := &c03Runner{c: c, seenOut: map[string]bool{}, sigCount: map[string]int{}, cliSeen: map[string]bool{}}
-	r.goawk = filepath.Join(core.VerifDir, "work", "bin", "goawk")
+	r.goawk = core.GoawkBin()
 	dir := filepath.Join(core.VerifDir, "work", "c03tmp")
 	os.MkdirAll(dir, 0o755)
 	r.cliPath = filepath.Join(dir, fmt.Sprintf("w%d.awk", c.Shard))
